@@ -136,6 +136,15 @@ Theorem C06_ops_choice_from_source : forall kind bo bi, In kind ["load"; "store"
   GenOps.ops_lookup kind bo bi = [GenOps.spec_ops kind bo bi].
 Proof. exact GenOps.ops_choice_spec. Qed.
 
+(* The `super::` prefix of conversion type paths: the condition in get_super_token (field_set_transform.rs), TRANSLATED from the
+   source on every build (coq/gen/SuperRule.v), is "no leading `::` and the first segment is not `crate`" — nothing else — and
+   FieldSetGen.needs_super, which the accessor types of the model are built with, is that rule for every path. *)
+From DD Require GenSuper.
+From DDGen Require SuperRule.
+Theorem C06_super_prefix_rule_from_source : forall ty,
+  needs_super ty = GenSuper.rule_holds SuperRule.super_rule ty.
+Proof. exact GenSuper.needs_super_from_source. Qed.
+
 
 Print Assumptions C06_emitted_sets_are_the_declared_ones.
 Print Assumptions C06_effective_byte_order.
@@ -147,6 +156,7 @@ Print Assumptions C06_carrier_sign_and_bool.
 Print Assumptions C06_getter_iff_readable.
 Print Assumptions C06_setter_iff_writable.
 Print Assumptions C06_ops_choice_from_source.
+Print Assumptions C06_super_prefix_rule_from_source.
 Print Assumptions C06_bytes_roundtrip.
 Print Assumptions C06_binops_act_on_all_bits.
 Print Assumptions C06_not_acts_on_all_bits.
